@@ -40,4 +40,15 @@ def cells(tier):
             pre = str_pre([n for n, _ in sym]) + ['s0 != s1', 'i0 != i1', 'n0 != s0', 'n0 != s1', 'n0 != i0', 'n0 != i1']
             out.append(Cell(pid=PID, cid='C13/%s/then-%s' % (op, edit), harness='h_sharing:sharing_cell',
                             params={'op': op, 'edit': edit}, sym=sym, pre=pre, stubs=('hash',), timeout=T, cost=2))
+    # two carried elements, the later edit touches the second one
+    for op in ('roStoryAppend', 'roStoryInsert', 'roStoryReplace', 'EAStoryInsert', 'EAStoryReplace',
+               'roItemInsert', 'roItemReplace', 'EAItemInsert', 'EAItemReplace'):
+        for edit in (('item-delete', 'ea-item-swap', 'none') if 'Story' in op else ('item-delete', 'item-replace', 'none')):
+            sym = [('s0', 'str'), ('s1', 'str'), ('i0', 'str'), ('i1', 'str'), ('n0', 'str'), ('n1', 'str'),
+                   ('c0', 'str'), ('c1', 'str')]
+            names = ['s0', 's1', 'i0', 'i1', 'n0', 'n1']
+            pre = str_pre([n for n, _ in sym]) + ['s0 != s1', 'i0 != i1'] + \
+                ['%s != %s' % (a, b) for a in ('n0', 'n1') for b in ('s0', 's1', 'i0', 'i1')] + ['n0 != n1']
+            out.append(Cell(pid=PID, cid='C13/%s/two-carried/then-%s' % (op, edit), harness='h_sharing:sharing_cell',
+                            params={'op': op, 'edit': edit}, sym=sym, pre=pre, stubs=('hash',), timeout=T, cost=2))
     return out
